@@ -42,10 +42,17 @@ Fixpoint expand (prev : list vw) (l : list ob) : list (obs N) :=
 Record case := mkcase {
   k_mem : bool; k_skip : bool; k_lenchk : bool; k_retry : N; k_ttl : N; k_genpl : Z;
   k_names : list N;                (* the names observed after every operation *)
-  k_tab : list (bytes * N);
+  k_ptab : list (N * N * N);       (* content table: length, the bytes as one little-endian base-256 number, digest name *)
   k_ops : list (op N);
   k_ob : list ob
 }.
+Fixpoint unpack (n : nat) (x : N) : bytes :=
+  match n with
+  | O => []
+  | S k => (x mod 256) :: unpack k (x / 256)
+  end.
+Definition k_tab (c : case) : list (bytes * N) :=
+  map (fun e => let '(l, x, d) := e in (unpack (N.to_nat l) x, d)) (k_ptab c).
 Definition k_obs (c : case) : list (obs N) := expand (map (fun _ => V0) (k_names c)) (k_ob c).
 
 (* the model evaluated is the FIXED code (fixes/C01_mem_path_verify.patch applied) *)
